@@ -346,7 +346,7 @@ class C02(Oracle):
             ovf_mode, rounding = kw.get('overflow', 'saturate'), kw.get('rounding', 'trunc')
             scaled = kw.get('scale', 1) != 1 or kw.get('bias', 0) != 0
             tgt = st.ret if isinstance(st.ret, Fxp) else None
-        if ovf_mode != 'saturate' or nf < 0 or scaled or s is None:
+        if ovf_mode != 'saturate' or nf < 0 or scaled or s is None or nw > 52 or nf > nw + 8:
             return
         sh, flat = V.exact(val, (s, nw, nf))
         lo, hi = Q.bounds(s, nw)
@@ -457,6 +457,7 @@ class C04(Oracle):
         if tgt.scaled or not isinstance(tgt.status, dict):
             return
         s, nw, nf = fmt
+        in_domain = nw <= 52 and -8 <= nf <= nw + 8
         # ---- exact input values of this write
         vals = None
         src_inacc = False
@@ -485,12 +486,19 @@ class C04(Oracle):
                     vals = (tuple(np.shape(a)), np.asarray(a, dtype=object).ravel().tolist())
             if sto.src != st.dest:
                 src_inacc = bool(status_dict(sp['status']).get('inaccuracy'))
+            if sp['fmt'][1] > 52:
+                in_domain = False
         elif st.extra.get('val') is None and sto.route in ('ctor', 'like_kw', 'tpl_kw') and sto.src is None:
             vals = ((), [Fraction(0)])
         prop_inacc = any(status_dict(st.pre[i]['status']).get('inaccuracy') for i in sto.prop if i in st.pre)
         post = {f: bool(tgt.status.get(f, False)) for f in FLAGS}
         aborted = st.outcome == 'aborted'
         judged_exact = False
+        if not in_domain:
+            vals = None     # outside the core domain only stickiness and propagation are judged
+        for i in sto.prop:
+            if i in st.pre and st.pre[i]['fmt'][1] > 52:
+                vals = None
         if vals is not None and sto.judge_flags and not any(isinstance(v, complex) for v in vals[1]):
             if sto.arith is not None and not in_exact_float_domain(vals[1], nf):
                 vals = None
@@ -648,6 +656,9 @@ class C10(Oracle):
             return
         snf = sp['fmt'][2]
         fmt = (bool(tgt.signed), tgt.n_word, tgt.n_frac)
+        if sp['fmt'][1] > 52 or fmt[1] > 52:
+            w.bump('c10_hop_out_of_domain')
+            return
         # ---- destination format is the requested one
         req = sto.fmt_req
         if req is not None and all(x is not None for x in req):
